@@ -68,7 +68,26 @@ def tf_attr(ops, rnd=None):
     return ' transform="%s"' % out
 
 
-def shape_xml(kind, k, attrs, tf, extra='', G=None):
+def points_text(pts, rnd):
+    """a points attribute in one of the spellings SVG 1.1 (9.7.1) allows: comma and / or white space inside and between the pairs, a minus sign
+    abutting the previous number, integers written as 3.0 / 30e-1 / .3e1 / +3"""
+    if rnd is None or rnd.random() < 0.4:
+        return ' '.join('%d,%d' % tuple(p) for p in pts)
+    num = lambda v: str(v) if rnd.random() < 0.6 else pm.spell_int(v, rnd, 'forms')      # noqa
+    inner = rnd.choice([',', ' ', ' , ', ', ', '\n'])
+    outer = rnd.choice([' ', ',', '\n  ', ' ,', '\t'])
+    out = ''
+    for n, (x, y) in enumerate(pts):
+        xs, ys = num(x), num(y)
+        sep_in = '' if (ys.startswith('-') and rnd.random() < 0.5) else inner
+        pair = xs + sep_in + ys
+        if n:
+            out += '' if (pair.startswith('-') and rnd.random() < 0.3) else outer
+        out += pair
+    return (' ' if rnd.random() < 0.2 else '') + out + (' ' if rnd.random() < 0.2 else '')
+
+
+def shape_xml(kind, k, attrs, tf, extra='', G=None, rnd=None):
     if G is not None and kind != 'path':
         sc, off = G
         P = lambda v: repr(v * sc + off)       # positions
@@ -94,7 +113,17 @@ def shape_xml(kind, k, attrs, tf, extra='', G=None):
     if kind == 'line':
         return '<line%s x1="%d" y1="%d" x2="%d" y2="%d"/>' % (i, attrs['x1'], attrs['y1'], attrs['x2'], attrs['y2'])
     if kind in ('polyline', 'polygon'):
-        return '<%s%s points="%s"/>' % (kind, i, ' '.join('%d,%d' % tuple(p) for p in attrs['pts']))
+        return '<%s%s points="%s"/>' % (kind, i, points_text(attrs['pts'], rnd))
+    if rnd is not None and rnd.random() < 0.3 and kind in ('line', 'rect', 'circle', 'ellipse'):
+        # the same integers in other legal number spellings
+        N = lambda v: pm.spell_int(v, rnd, 'forms')      # noqa
+        if kind == 'line':
+            return '<line%s x1="%s" y1="%s" x2="%s" y2="%s"/>' % (i, N(attrs['x1']), N(attrs['y1']), N(attrs['x2']), N(attrs['y2']))
+        if kind == 'rect':
+            return '<rect%s x="%s" y="%s" width="%s" height="%s"/>' % (i, N(attrs['x']), N(attrs['y']), N(attrs['w']), N(attrs['h']))
+        if kind == 'circle':
+            return '<circle%s cx="%s" cy="%s" r="%s"/>' % (i, N(attrs['cx']), N(attrs['cy']), N(attrs['r']))
+        return '<ellipse%s cx="%s" cy="%s" rx="%s" ry="%s"/>' % (i, N(attrs['cx']), N(attrs['cy']), N(attrs['rx']), N(attrs['ry']))
     if kind == 'rect':
         return '<rect%s x="%d" y="%d" width="%d" height="%d"/>' % (i, attrs['x'], attrs['y'], attrs['w'], attrs['h'])
     if kind == 'rrect':
@@ -121,7 +150,7 @@ def render(case, rnd=None, svg_attrs='', G=None):
             if k == 1:
                 return '<svg xmlns="%s" version="1.1"%s%s>\n%s</svg>\n' % (NS, tf, svg_attrs, inner)
             return '%s<g id="n%d"%s>\n%s%s</g>\n' % (ind, k, tf, inner, ind)
-        return ind + shape_xml(nd['kind'], k, case['attrs'][k - 1], tf, G=G) + '\n'
+        return ind + shape_xml(nd['kind'], k, case['attrs'][k - 1], tf, G=G, rnd=rnd) + '\n'
     return rec(1, '')
 
 
